@@ -299,8 +299,14 @@ def check_nonempty(ctx, lib):
 
 # =============================================================================================
 def adv_switches(lib, b):
+    """Tests of the token just consumed, as (block, {"edges": {kind: target}, "otherwise": target, ..}): a `match` on it, or a
+    comparison `consumed == Token::X` / `!=` (one kind against all others)."""
     tp = TokenPaths(lib, b)
-    return [(blk, t[1]) for blk, t in tp.tests.items() if t[0] == "adv-discr"], tp
+    out = [(blk, t[1]) for blk, t in tp.tests.items() if t[0] == "adv-discr"]
+    for blk, t in tp.tests.items():
+        if t[0] == "adv-eq" and isinstance(t[1], str):
+            out.append((blk, {"edges": {t[1]: t[2]}, "otherwise": t[3], "all": list(ALL_TOKENS), "adt": TOKEN, "scrutinee": set()}))
+    return out, tp
 
 
 def check_closers(ctx, lib):
@@ -421,6 +427,8 @@ def check_complete_input(ctx, lib):
         tp = TokenPaths(lib, b)
         oks = [(bb, s) for bb, _, s in region_aggs(b, b.reachable(), "std::result::Result") if s["rv"]["variant"] == "Ok"]
         sw = [(blk, t[1]) for blk, t in tp.tests.items() if t[0] == "peek-discr"]
+        # the same test as a comparison: `self.peek(0) == &Token::Eof` / `!=`
+        sw += [(blk, {"edges": {t[1]: t[2]}, "otherwise": t[3]}) for blk, t in tp.tests.items() if t[0] == "peek-eq" and isinstance(t[1], str)]
         ok = len(oks) >= 1 and len(sw) == 1
         if ok:
             blk, ve = sw[0]
